@@ -116,7 +116,7 @@ async def sim_process(
             rt_check(rt_factor, rt_start, rt_strict, sim)
             await get_outputs(world, sim)
             sim.current_step = None
-            notify_dependencies(sim)
+            notify_dependencies(sim, until)
             # TODO: Reduce the number of sims that need to be advanced
             # (At least only to those that could potentially be
             # triggered by this step; maybe there's even a more clever
@@ -422,14 +422,18 @@ async def get_outputs(world: World, sim: SimRunner):
         sim.data = data 
 
 
-def notify_dependencies(sim: SimRunner) -> None:
+def notify_dependencies(sim: SimRunner, until: Optional[int] = None) -> None:
     """
     Notify all simulators waiting for us.
+
+    Steps at or after *until* are not scheduled (as for self-steps).
     """
     for (eid, attr), triggered in sim.triggers.items():
         if attr in sim.data.get(eid, {}):
             for dest_sim, delay in triggered:
-                dest_sim.schedule_step(sim.output_time + delay)
+                step_time = sim.output_time + delay
+                if until is None or step_time.time < until:
+                    dest_sim.schedule_step(step_time)
 
 
 def prune_dataflow_cache(world: World):
